@@ -40,7 +40,7 @@ REAL_VS_STUB = {
              'Python registry lookup'],
     'stub_or_simulator_owned': ['block program (choice tape)', 'injected exceptions', 'predicate callbacks'],
 }
-EXPECTED_PROBES = ('raise-base-exception', 'raise-from-optree', 'enter', 'exit', 'raise-exit', 'raise-in-callback', 'non-lifo-exit', 'nested-depth>=3', 'false-inside-true',
+EXPECTED_PROBES = ('enter-form:prebuilt', 'enter-form:decorator', 'raise-base-exception', 'raise-from-optree', 'enter', 'exit', 'raise-exit', 'raise-in-callback', 'non-lifo-exit', 'nested-depth>=3', 'false-inside-true',
                    'iterator-across-exit', 'observe')
 
 V = _C._verif if hasattr(_C, '_verif') else None
@@ -57,6 +57,31 @@ class InjectedBase(BaseException):
 
 
 INJECTED = (Injected, InjectedBase)
+
+
+def _call_body(body):
+    return body()
+
+
+class _DecoratedBlock:
+    """Adapter: run the body of a with-block inside a function that was decorated with dict_insertion_ordered(...).
+    `with _DecoratedBlock(f):` cannot wrap a body lexically, so the block body is executed by a generator trick: __enter__
+    starts the decorated call in a helper thread-free way by using the decorator's own context manager recreation."""
+
+    def __init__(self, decorated_fn):
+        # contextlib.ContextDecorator re-creates the manager on every call via _recreate_cm(); use exactly that object
+        self.cm = decorated_fn.__wrapped__ and None
+        self.fn = decorated_fn
+        self.inner = None
+
+    def __enter__(self):
+        # the decorator is `with self._recreate_cm(): return func(...)`; reproduce it for a lexical block
+        closure_cm = [c.cell_contents for c in (self.fn.__closure__ or ()) if hasattr(c.cell_contents, '_recreate_cm')]
+        self.inner = closure_cm[0]._recreate_cm()
+        return self.inner.__enter__()
+
+    def __exit__(self, *exc):
+        return self.inner.__exit__(*exc)
 
 
 def tier_config(tier):
@@ -314,8 +339,25 @@ def run_job(job, io):
             probes['nested-depth>=3'] += 1
         oplog.append('enter(%s,%s)' % (mode, kns or 'G'))
         probes['enter'] += 1
+        # how the block is entered: inline (manager created and entered at once), through a manager object that was CREATED
+        # EARLIER (when the run started, all flags off) and is only entered now, or through the decorator form of a function
+        # decorated earlier.  The saved "previous" value must be the one at ENTRY in all three cases.
+        form = 'inline'
+        if sym is None or True:
+            f_ = tape.draw(5, 'enter-form') if sym is None else 0
+            if f_ == 3 and prebuilt.get((mode, kns)):
+                form = 'prebuilt'
+            elif f_ == 4:
+                form = 'decorator'
+        probes['enter-form:' + form] += 1
+        if form == 'prebuilt':
+            cm = prebuilt[(mode, kns)].pop()
+        elif form == 'decorator':
+            cm = _DecoratedBlock(decorated[(mode, kns)])
+        else:
+            cm = optree.dict_insertion_ordered(mode, namespace=ns)
         try:
-            with optree.dict_insertion_ordered(mode, namespace=ns):
+            with cm:
                 model.flags[kns] = mode
                 step('enter#%d' % depth, before_enter)
                 # an iterator created inside the block keeps the mode it was created under
@@ -418,6 +460,9 @@ def run_job(job, io):
             viol('not-restored', 'non-lifo', 'mode vector %r after two interleaved blocks over different namespaces differs from %r before' % (after, before))
 
     pending = []
+    # managers and decorated functions made NOW, while every flag is off; used later inside other blocks
+    prebuilt = {(m, key_ns(n)): [optree.dict_insertion_ordered(m, namespace=n) for _ in range(3)] for m in (True, False) for n in NS_CHOICES}
+    decorated = {(m, key_ns(n)): optree.dict_insertion_ordered(m, namespace=n)(_call_body) for m in (True, False) for n in NS_CHOICES}
     initial = observe(model, viol, 'initial', probes, extra_tree)
     if violations:
         raise AssertionError('mode set not pristine at run start: %r' % violations)
